@@ -1184,6 +1184,39 @@ impl<'a> Exec<'a> {
             if scn.check != "C10" {
                 continue;
             }
+            // second stage: the *presentation* (with its KB-JWT, if any) re-expressed in the other
+            // form and fed to two more fresh holders that re-present it without key binding
+            if let (Some(pa), true) = (&first, scn.check == "C10") {
+                if pa.transcodable() {
+                    let mut outs: Vec<(Fmt, Option<Message>, bool)> = Vec::new();
+                    for f in [cfmt, ofmt] {
+                        let Some(wp) = pa.serialize(f) else { continue };
+                        let h = self.w.holder_new(self.n_holder, &wp, f);
+                        let o = match &h {
+                            Out::Ok(h) => self.w.present(self.n_holder, h, selection, None),
+                            Out::Err { variant, msg } => Out::Err { variant: variant.clone(), msg: msg.clone() },
+                            Out::Panic(p) => Out::Panic(p.clone()),
+                        };
+                        outs.push((f, o.ok().and_then(|s| Message::parse(s, f)), o.is_panic()));
+                    }
+                    if outs.len() == 2 && !outs[0].2 && !outs[1].2 {
+                        self.rep.evaluations += 1;
+                        self.rep.count("oracle.c10.holder_from_presentation_compared");
+                        match (&outs[0].1, &outs[1].1) {
+                            (Some(a), Some(b)) => {
+                                if a.jwt() != b.jwt() || a.disclosures != b.disclosures {
+                                    self.push_c10_holder(pi, "holders built from the two forms of a presentation select different disclosures", json!({"first": a.disclosures, "second": b.disclosures}));
+                                } else if a.kb.is_some() != b.kb.is_some() {
+                                    let which = if a.kb.is_some() { outs[0].0.name() } else { outs[1].0.name() };
+                                    self.push_c10_holder(pi, "re-presenting without key binding keeps the input's KB-JWT in one form only", json!({"form_that_keeps_it": which, "input_had_kb": pa.kb.is_some()}));
+                                }
+                            }
+                            (None, None) => {}
+                            _ => self.push_c10_holder(pi, "one holder re-presents a presentation, the other refuses", json!({"first_ok": outs[0].1.is_some(), "second_ok": outs[1].1.is_some()})),
+                        }
+                    }
+                }
+            }
             match (&first, &second) {
                 (Some(a), Some(b)) => {
                     if a.disclosures != b.disclosures || a.jwt() != b.jwt() {
